@@ -53,10 +53,23 @@ func (h *hooked) Check(ent Entry, ce *CheckedEntry) *CheckedEntry {
 	// Let the wrapped Core decide whether to log this message or not. This
 	// also gives the downstream a chance to register itself directly with the
 	// CheckedEntry.
-	if downstream := h.Core.Check(ent, ce); downstream != nil {
+	//
+	// The hooks run only if the wrapped Core accepted the entry, i.e. added
+	// itself (or some Core it wraps) to the CheckedEntry. A non-nil
+	// CheckedEntry alone doesn't tell: it may hold Cores that were added
+	// before this Core was consulted, e.g. by an earlier Core of a Tee.
+	before := 0
+	if ce != nil {
+		before = len(ce.cores)
+	}
+	downstream := h.Core.Check(ent, ce)
+	if downstream == nil {
+		return ce
+	}
+	if len(downstream.cores) > before {
 		return downstream.AddCore(ent, h)
 	}
-	return ce
+	return downstream
 }
 
 func (h *hooked) With(fields []Field) Core {
